@@ -129,7 +129,10 @@ def run(facts, cg):
                                                            ('tokio::fs::remove_file::remove_file', 'bita::compress_cmd::compress_cmd')},
                                              'write_paths': {'opts.output', 'opts.temp_file'}},
         'bita::info_cmd::info_cmd': {'mutating': set(), 'write_paths': set()},
+        # what runs before / around every command (argument parsing, logger set-up): no file of its own
+        'bita::main': {'mutating': set(), 'write_paths': set()},
     }
+    commands = ('bita::clone_cmd::clone_cmd', 'bita::compress_cmd::compress_cmd', 'bita::info_cmd::info_cmd', 'bita::diff_cmd::diff_cmd')
     # semantic anchors instead of function names where the role can be discovered:
     #   set_len is allowed in the function that wraps the output file into CloneOutput,
     #   remove_file in the command function itself (the one dispatched from main)
@@ -139,7 +142,7 @@ def run(facts, cg):
         if entry not in facts.bodies:
             finding('R-WHO(fs-effects)', entry, 'anchor', 'command entry point %s not found (cannot decide)' % entry)
             continue
-        reach, sites = r_who.fs_effects(facts, cg, entry)
+        reach, sites = r_who.fs_effects(facts, cg, entry, minus=commands if entry == 'bita::main' else ())
         muts = [s for s in sites if s['kind'] == 'MUTATING']
         for s in muts:
             fn = owner_fn(s['in'])
@@ -160,7 +163,7 @@ def run(facts, cg):
         instances.append({'rule': 'R-WHO(fs-effects)', 'entry': entry, 'functions_reachable': len(reach),
                           'fs_call_sites': [(s['api'], s['kind'], s['at']) for s in sites if s['kind'] != 'open-builder'],
                           'write_opens': wpaths})
-        if entry != 'bita::info_cmd::info_cmd' and not wpaths:
+        if entry not in ('bita::info_cmd::info_cmd', 'bita::main') and not wpaths:
             finding('R-WHO(fs-effects)', entry, 'floor', 'no write-open found for a command that must write its output (cannot decide)')
 
     # ---------------------------------------------------------------- concurrency combinators and nondeterminism in the writers
